@@ -92,6 +92,11 @@ func c03Extra() []c03Case {
 			out = append(out, c03Case{P: []interface{}{e, e, o}, M: amsgs[3], B: M{}})
 		}
 	}
+	for i, cs := range lookAlikeCases() {
+		if i%3 == 0 {
+			out = append(out, c03Case{P: cs.P, M: cs.M, B: cs.B})
+		}
+	}
 	// invalid at one key, merely non-matching at another
 	bad := []interface{}{
 		M{"a": M{"?k": 1.0, "z": 2.0}, "b": "zz"},
